@@ -5,6 +5,23 @@ import z3
 from . import sym as S
 
 
+def safe_check(solver, ms):
+    """solver.check() with a hard wall-clock guard: z3's own `timeout`
+    parameter is not honoured by every theory combination (sequences with
+    quantifiers), so a watchdog interrupts the context."""
+    import threading
+    ctx = solver.ctx
+    timer = threading.Timer(ms / 1000.0 + 1.0, ctx.interrupt)
+    timer.daemon = True
+    timer.start()
+    try:
+        return solver.check()
+    except z3.Z3Exception:
+        return z3.unknown
+    finally:
+        timer.cancel()
+
+
 class Obligation:
     def __init__(self, name, kind, line, status, seconds, backend,
                  model=None, detail=None, smt2=None):
@@ -64,7 +81,7 @@ class Path:
         try:
             if term is not None:
                 self.solver.add(term)
-            r = self.solver.check()
+            r = safe_check(self.solver, self.budget.branch_ms)
             return r != z3.unsat
         finally:
             self.solver.pop()
@@ -129,18 +146,39 @@ class Path:
         # quick attempt first: almost every obligation is decided in ms
         quick_ms = min(3000, self.budget.prove_ms)
         s = mk(quick_ms)
-        r = s.check()
+        r = safe_check(s, quick_ms)
         backend = 'z3-%s' % z3.get_version_string()
         status = 'proved' if r == z3.unsat else (
             'failed' if r == z3.sat else 'unknown')
         model = None
         smt2 = None
+        detail = None
         if status == 'unknown':
+            # ground instantiation of the pattern-carrying (definitional)
+            # axioms: quantifier-free w.r.t. them, so z3 can also answer sat
+            inst_ax, rest = ground_instances(chosen, inst + self.pc + [
+                z3.Not(goal)], depth=3)
+            if inst_ax is not None:
+                s2 = z3.Solver()
+                s2.set('timeout', 8000)
+                for a in rest + inst_ax + inst + self.pc:
+                    s2.add(a)
+                s2.add(z3.Not(goal))
+                r2 = safe_check(s2, 8000)
+                if r2 == z3.unsat:
+                    status, backend = 'proved', backend + '+ground-inst'
+                elif r2 == z3.sat:
+                    status, backend = 'failed', backend + '+ground-inst'
+                    s, r = s2, r2
+                    detail = ('counter-model satisfies the recursive '
+                              'definitional axioms instantiated on all '
+                              'ground terms to depth 3 (candidate)')
+        if status == 'unknown' and self.budget.prove_ms > quick_ms:
             smt2 = s.to_smt2()
             status, backend = _second_opinion(smt2, self.budget, backend)
             if status == 'unknown' and self.budget.prove_ms > quick_ms:
                 s = mk(self.budget.prove_ms)
-                r = s.check()
+                r = safe_check(s, self.budget.prove_ms)
                 backend = 'z3-%s' % z3.get_version_string()
                 status = 'proved' if r == z3.unsat else (
                     'failed' if r == z3.sat else 'unknown')
@@ -153,7 +191,8 @@ class Path:
                 except Exception as e:      # noqa
                     model[nm] = '?'
         ob = Obligation(name, kind, line, status, time.time() - t0, backend,
-                        model=model, smt2=smt2 if status != 'proved' else None)
+                        model=model, detail=detail,
+                        smt2=smt2 if status != 'proved' else None)
         self.obligations.append(ob)
         if assume_after and status == 'proved':
             self.assume(goal)
@@ -173,6 +212,70 @@ def has_quantifier(t, _seen=None):
             return True
         todo.extend(x.children())
     return False
+
+
+def ground_instances(axioms, formulas, depth=3):
+    """Instantiate every axiom of the form ForAll(xs, body) with a single
+    pattern f(xs') on the ground f-terms of the formulas (and of the
+    instances produced so far). Returns (instances, other axioms) or
+    (None, None) when no axiom is instantiable."""
+    inst_axioms, rest = [], []
+    for a in axioms:
+        if z3.is_quantifier(a) and a.is_forall() and a.num_patterns() == 1 \
+                and a.pattern(0).num_args() == 1 and all(
+                    z3.is_var(x) for x in a.pattern(0).arg(0).children()):
+            inst_axioms.append(a)
+        else:
+            rest.append(a)
+    if not inst_axioms:
+        return None, None
+    out, seen_inst = [], set()
+    pool = list(formulas)
+    for _ in range(depth):
+        new = []
+        terms = {}
+        seen = set()
+        todo = list(pool)
+        while todo:
+            x = todo.pop()
+            if x.get_id() in seen:
+                continue
+            seen.add(x.get_id())
+            if z3.is_quantifier(x):
+                continue
+            if z3.is_app(x):
+                if x.num_args() > 0 and x.decl().kind() == \
+                        z3.Z3_OP_UNINTERPRETED:
+                    terms.setdefault(x.decl().name(), []).append(x)
+                todo.extend(x.children())
+        for a in inst_axioms:
+            pat = a.pattern(0).arg(0)
+            n = a.num_vars()
+            for t in terms.get(pat.decl().name(), []):
+                if t.num_args() != pat.num_args():
+                    continue
+                # de Bruijn: var index i counts from the innermost binder
+                subst = [None] * n
+                ok = True
+                for pa, ta in zip(pat.children(), t.children()):
+                    idx = z3.get_var_index(pa)
+                    if subst[idx] is not None and not subst[idx].eq(ta):
+                        ok = False
+                    subst[idx] = ta
+                if not ok or any(x is None for x in subst):
+                    continue
+                key = (a.get_id(), tuple(x.get_id() for x in subst))
+                if key in seen_inst:
+                    continue
+                seen_inst.add(key)
+                # substitute_vars expects the term for Var(0) first
+                body = z3.substitute_vars(a.body(), *subst)
+                new.append(body)
+        if not new:
+            break
+        out.extend(new)
+        pool = new
+    return out, rest
 
 
 def uf_names(t, acc, seen):
@@ -203,7 +306,7 @@ def _second_opinion(smt2, budget, backend):
     os.write(fd, smt2.encode())
     os.close(fd)
     try:
-        secs = max(2, budget.prove_ms // 1000)
+        secs = max(2, min(6, budget.prove_ms // 4000))
         for cmd, nm in ((['/usr/bin/cvc5', '--strings-exp',
                           '--tlimit=%d' % (secs * 1000), fn], 'cvc5-1.0.3'),
                         (['/usr/bin/z3', '-T:%d' % secs, fn], 'z3-4.8.12')):
